@@ -96,6 +96,22 @@ func escape(info *types.Info, root ast.Node, f func(v *types.Var, escapes bool))
 
 		case *ast.IncDecStmt:
 			lvalue(n.X, false)
+
+		case *ast.RangeStmt:
+			// (verif) Before Go 1.22 the variables of `for k, v := range x` are one variable each for the whole
+			// loop, assigned anew in every iteration: an argument that is such a variable must not be
+			// substituted into a function literal of the callee (the literal would see the last
+			// iteration's value). The module under analysis declares go 1.18; treating range variables as
+			// multiply assigned is right there and merely conservative from 1.22 on.
+			for _, e := range []ast.Expr{n.Key, n.Value} {
+				if id, ok := e.(*ast.Ident); ok {
+					if v, ok := info.Defs[id].(*types.Var); ok {
+						f(v, false)
+					} else if v, ok := info.Uses[id].(*types.Var); ok && !isPkgLevel(v) {
+						f(v, false)
+					}
+				}
+			}
 		}
 		return true
 	})
